@@ -146,15 +146,26 @@ def rule_r4(ctx):
     for name, kind in (("nni_msg_header_append", "grow"), ("nni_msg_header_insert", "grow"),
                        ("nni_msg_header_trim", "shrink"), ("nni_msg_header_chop", "shrink")):
         f = prog.need(name, "core/message.c")
+        # edges on which the capacity relation is established, in any spelling (negated, operands swapped, inside a
+        # boolean helper that was inlined, sum held in a temporary)
         ok_edges = {}
-        for b in f.blocks.values():
-            c = f.cond(b.id) if b.term and len(b.succs) == 2 else None
-            if c is None or c.get("k") != "bin" or "m_header_len" not in show(c):
+        for bid, k, atom, val in G.edge_facts(f):
+            if atom.get("k") != "bin" or atom["op"] not in (">", "<=", "<", ">="):
                 continue
-            if kind == "grow" and "sizeof" in show(c["rhs"]) and c["op"] in (">", "<="):
-                ok_edges[b.id] = 1 if c["op"] == ">" else 0
-            if kind == "shrink" and c["op"] in (">", "<=") and G.field_is(c["rhs"], "m_header_len"):
-                ok_edges[b.id] = 1 if c["op"] == ">" else 0
+            l, rr, op = atom["lhs"], atom["rhs"], atom["op"]
+            if kind == "grow":
+                if "sizeof" in show(l) and "m_header_len" in show(rr):
+                    l, rr, op = rr, l, {">": "<", "<": ">", ">=": "<=", "<=": ">="}[op]
+                if not ("m_header_len" in show(l) and "sizeof" in show(rr)):
+                    continue
+            else:
+                if G.field_is(l, "m_header_len") and not G.field_is(rr, "m_header_len"):
+                    l, rr, op = rr, l, {">": "<", "<": ">", ">=": "<=", "<=": ">="}[op]
+                if not G.field_is(rr, "m_header_len") or G.field_is(l, "m_header_len"):
+                    continue
+            # established "l <= rr": atom `l <= rr` true, or atom `l > rr` false
+            if (op == "<=" and val) or (op == ">" and not val):
+                ok_edges[bid] = k
         writes = [s for s in f.calls(("memcpy", "memmove"))] + G.stores(f, "m_header_len")
         if not ok_edges:
             ctx.fail(r, f, "capacity test missing", f.line, "%s has no capacity test of the expected form" % name)
